@@ -47,7 +47,7 @@ Definition err_model_codes (prefix : nat) : list Z :=
 
 Definition check_c09 (c : c09case) : list nat :=
   match c with
-  | C09Step cc => (if agrees cc then [] else [1%nat]) ++ reasons_in [3; 5; 6; 7; 8]%nat cc
+  | C09Step cc => (if agrees cc then [] else [1%nat]) ++ reasons_in [3; 5; 6; 7; 8; 10]%nat cc
   | C09Storm n pending succ => (if pending =? 0 then [] else [6%nat]) ++ (if succ =? 0 then [] else [5%nat])
   | C09Err _ prefix results =>
       (* reason 1: for every error value the real client's results equal the model's (value-independence) *)
